@@ -49,6 +49,8 @@ def run(prog, tier):
     check_fresh_result(R, prog)
     check_provenance_entry(R, prog)
     check_copy_on_insert(R, prog)
+    from ._shared import check_no_shared_state
+    check_no_shared_state(R, prog, P, ['cnfgen.families', 'cnfgen.transformations', 'cnfgen.graphs'], 150)
     return R
 
 
